@@ -30,6 +30,25 @@ def gen_cases(tier, rng):
                         else:
                             out.append(o)
                     cases.append("amap 8 %d %s" % (mx, " ".join(out)))
+    # register / release only, deeper (the cursor wraps around and comes back to tokens that are still live), then every token
+    # looked up: depth 7 for limits 1 and 2, depth 6 for limit 3 (quick); one more in thorough
+    for mx in (1, 2, 3):
+        alpha2 = ["r:7"] + ["x:%d" % i for i in range(1, mx + 1)]
+        dmax = (7 if mx <= 2 else 6) + (0 if tier == "quick" else 1)
+        tail = " ".join("l:%d" % i for i in range(1, mx + 1))
+        for d in range(depth + 1, dmax + 1):
+            for ops in itertools.product(alpha2, repeat=d):
+                if ops.count("r:7") < 3:
+                    continue
+                n = 0
+                out = []
+                for o in ops:
+                    if o == "r:7":
+                        n += 1
+                        out.append("r:%d" % (1000 + n))
+                    else:
+                        out.append(o)
+                cases.append("amap 8 %d %s %s" % (mx, " ".join(out), tail))
     # fill to exhaustion for every limit of the 8-bit table, then one more; release+re-register around the cursor
     for mx in range(1, 255):
         fill = ["r:%d" % (100 + i) for i in range(mx)]
@@ -87,7 +106,7 @@ def NONTRIVIAL(case, model, cls):
     return True
 
 
-RULE = ("token table app_pointer_map<uint8_t>: every history up to depth 5 (quick)/6 (thorough) over {register, release i, lookup i} for limits 1,2,3(,5); fill-to-exhaustion + one more, "
+RULE = ("token table app_pointer_map<uint8_t>: every history up to depth 5 (quick)/6 (thorough) over {register, release i, lookup i} for limits 1,2,3(,5); register/release-only histories to depth 7 (limits 1,2) / 6 (limit 3) followed by a lookup of every token; fill-to-exhaustion + one more, "
         "release/re-register around the parked cursor, for every limit 1..254; type-maximum limit without a full table; random histories of length 20..400 on 16/32/64-bit tables with "
         "limits from 1 to the type maximum; owner layer through rlbox_sandbox<verif16>: every history up to depth 4/5 over {get into slot (incl. the null application pointer), move-assign (incl. self and from inert), "
         "unregister, lookup through the owner, is_unregistered, lookup of raw tokens} + random. The spec column is an independent reference (fresh token in [1,max], abort iff full, lookup = "
